@@ -12,8 +12,11 @@ package main
 // and named sub-conditions.
 
 import (
+	"fmt"
+	"os"
 	"go/ast"
 	"go/token"
+	"go/types"
 	"golang.org/x/tools/go/cfg"
 )
 
@@ -21,7 +24,10 @@ const maxFreeLeaves = 10
 
 type bform struct {
 	expr ast.Expr // expression of this node (compound nodes too), nil when unknown
-	op   string   // and | or | not | leaf
+	// side constraints (root only): a multiply-assigned boolean local x is a free leaf with
+	// x => (one of its definitions' right-hand sides is true) and !x => (one of them is false)
+	side []*bform
+	op   string // and | or | not | leaf
 	kids []*bform
 	leaf ast.Expr // AST expression of the leaf (in g.F or an enclosing function)
 	key  string   // canonical key of the leaf (normalised comparison), sense folded into neg
@@ -32,7 +38,59 @@ type bform struct {
 // a boolean local defined once (needsValidation := a || b) is unfolded.
 func (g *Graph) formulaOf(e ast.Expr) *bform {
 	v := g.P.R(g.F).Val(e)
-	return g.formOfV(v, e, 0)
+	var sides []*bform
+	g.sideAcc = &sides
+	f := g.formOfV(v, e, 0)
+	g.sideAcc = nil
+	if len(sides) == 0 {
+		return f
+	}
+	// the side constraints mention leaves of f: keep them on a separate root node (no cycle)
+	return &bform{op: "root", expr: f.expr, kids: []*bform{f}, side: sides}
+}
+
+// flagDefs: the boolean local v (not resolvable to one definition) with all of its definitions being plain
+// assignments of boolean expressions (or the zero value): returns the formulas of the right-hand sides.
+func (g *Graph) flagDefs(v *V, depth int) ([]*bform, bool) {
+	if v == nil || v.Kind != "var" || v.Obj == nil || depth > 3 {
+		return nil, false
+	}
+	tv, ok := v.Obj.(*types.Var)
+	if !ok || tv.IsField() {
+		return nil, false
+	}
+	if b, ok := tv.Type().Underlying().(*types.Basic); !ok || b.Kind() != types.Bool {
+		return nil, false
+	}
+	res := g.P.R(g.F)
+	ds := res.Defs(v.Obj)
+	if len(ds) < 2 || len(ds) > 4 {
+		return nil, false
+	}
+	var out []*bform
+	for _, d := range ds {
+		switch {
+		case d.kind == "zero":
+			out = append(out, &bform{op: "const", key: "false"})
+		case d.kind == "assign" && d.rhs != nil && d.idx < 0:
+			if g.flagActive[d.node] {
+				return nil, false
+			}
+			if g.flagActive == nil {
+				g.flagActive = map[ast.Node]bool{}
+			}
+			g.flagActive[d.node] = true
+			if tvv, ok := g.F.Info().Types[d.rhs]; ok && tvv.Value != nil {
+				out = append(out, &bform{op: "const", key: tvv.Value.ExactString()})
+			} else {
+				out = append(out, g.formOfV(res.Val(d.rhs), d.rhs, depth+1))
+			}
+			delete(g.flagActive, d.node)
+		default:
+			return nil, false
+		}
+	}
+	return out, true
 }
 
 func (g *Graph) formOfV(v *V, fallback ast.Expr, depth int) *bform {
@@ -53,7 +111,22 @@ func (g *Graph) formOfV(v *V, fallback ast.Expr, depth int) *bform {
 	if le == nil {
 		le = fallback
 	}
-	return g.leafForm(le, v)
+	leaf := g.leafForm(le, v)
+	if g.sideAcc != nil && depth < 8 {
+		if defs, ok := g.flagDefs(v, depth); ok {
+			// x => OR(defs), !x => OR(!defs)
+			pos := &bform{op: "or?", kids: defs}
+			var negs []*bform
+			for _, d := range defs {
+				negs = append(negs, &bform{op: "not", kids: []*bform{d}})
+			}
+			neg := &bform{op: "or?", kids: negs}
+			*g.sideAcc = append(*g.sideAcc,
+				&bform{op: "or?", kids: []*bform{{op: "not", kids: []*bform{leaf}}, pos}},
+				&bform{op: "or?", kids: []*bform{leaf, neg}})
+		}
+	}
+	return leaf
 }
 
 func exprOf(v *V) ast.Expr {
@@ -109,15 +182,19 @@ func (g *Graph) leafForm(e ast.Expr, v *V) *bform {
 func (f *bform) leaves(out *[]*bform) {
 	if f.op == "leaf" {
 		*out = append(*out, f)
-		return
 	}
 	for _, k := range f.kids {
 		k.leaves(out)
+	}
+	for _, s := range f.side {
+		s.leaves(out)
 	}
 }
 
 func (f *bform) eval(val func(l *bform) bool) bool {
 	switch f.op {
+	case "root":
+		return f.kids[0].eval(val)
 	case "leaf":
 		return val(f)
 	case "not":
@@ -126,8 +203,27 @@ func (f *bform) eval(val func(l *bform) bool) bool {
 		return f.kids[0].eval(val) && f.kids[1].eval(val)
 	case "or":
 		return f.kids[0].eval(val) || f.kids[1].eval(val)
+	case "or?": // n-ary disjunction (side constraints)
+		for _, k := range f.kids {
+			if k.eval(val) {
+				return true
+			}
+		}
+		return false
+	case "const":
+		return f.key == "true"
 	}
 	return false
+}
+
+// sidesHold evaluates the side constraints attached to the root.
+func (f *bform) sidesHold(val func(l *bform) bool) bool {
+	for _, s := range f.side {
+		if !s.eval(val) {
+			return false
+		}
+	}
+	return true
 }
 
 // condForm returns (cached) the formula of the branch condition of block b, or nil.
@@ -164,6 +260,12 @@ func (g *Graph) edgeEntails(e Edge, lits []AtomWant) bool {
 	onTrue := e.Succ == 0
 	var ls []*bform
 	f.leaves(&ls)
+	if os.Getenv("PSCHECK_DEBUG_ENTAIL") != "" {
+		fmt.Fprintf(os.Stderr, "entail %s block %d succ %d: %d leaves, %d sides\n", g.F.Name, e.From.Index, e.Succ, len(ls), len(f.side))
+		for _, l := range ls {
+			fmt.Fprintf(os.Stderr, "   leaf key=%s neg=%v\n", l.key, l.neg)
+		}
+	}
 	// fixed leaves: those matching a clause atom get the value that falsifies the literal
 	fixed := map[*bform]bool{}
 	isFixed := map[*bform]bool{}
@@ -226,7 +328,7 @@ func (g *Graph) edgeEntails(e Edge, lits []AtomWant) bool {
 			kv := m&(1<<uint(keyIdx[l.key])) != 0
 			return kv != l.neg
 		}
-		if f.eval(val) == onTrue {
+		if f.eval(val) == onTrue && f.sidesHold(val) {
 			return false // the edge can be taken with every literal of the clause false
 		}
 	}
